@@ -295,6 +295,51 @@ def part_decorators(payload):
             calls["n"] += 1
             return "ran"
 
+        # the two decorators used together, in either order, and accepts applied twice (one parameter each)
+        @accepts(a=dim, b=dim)
+        @returns(dim)
+        def f_acc_over_ret(a, b):
+            calls["n"] += 1
+            return a
+
+        @returns(dim)
+        @accepts(a=dim, b=dim)
+        def f_ret_over_acc(a, b):
+            calls["n"] += 1
+            return a
+
+        @accepts(a=dim)
+        @accepts(b=dim)
+        def f_acc_twice(a, b):
+            calls["n"] += 1
+            return "ran"
+
+        stacked = []
+        for q in spell[:3]:
+            for sn, sf in (("accepts-over-returns", f_acc_over_ret), ("returns-over-accepts", f_ret_over_acc), ("accepts-twice", f_acc_twice)):
+                stacked += [(f"{sn}:positional", lambda q=q, sf=sf: sf(q, q), True), (f"{sn}:keyword", lambda q=q, sf=sf: sf(a=q, b=q), True),
+                            (f"{sn}:wrong-first-positional", lambda q=q, sf=sf: sf(wrong, q), False), (f"{sn}:wrong-second-positional", lambda q=q, sf=sf: sf(q, wrong), False),
+                            (f"{sn}:wrong-keyword", lambda q=q, sf=sf: sf(a=q, b=wrong), False), (f"{sn}:wrong-mixed", lambda q=q, sf=sf: sf(q, b=wrong), False)]
+        for un, fn, should_pass in stacked:
+            part.ev()
+            fresh()
+            try:
+                fn()
+                passed = True
+            except TypeError:
+                passed = False
+            except Exception as e:
+                core.classify(known, part, f"C19:accepts:wrong-exception:{un}", {"dimension": name, "error": f"{type(e).__name__}: {e}"[:160]})
+                continue
+            if passed != should_pass:
+                core.classify(known, part, f"C19:accepts:{'let-through' if passed else 'refused'}:stacked:{un}", {"dimension": name, "unit": str(si)})
+            elif not passed and calls["n"]:
+                core.classify(known, part, f"C19:accepts:function-called-before-refusal:stacked:{un}", {"dimension": name})
+            elif passed and calls["n"] != 1:
+                core.classify(known, part, f"C19:accepts:function-not-called-exactly-once:stacked:{un}", {"dimension": name, "calls": calls["n"]})
+            else:
+                part.nt(("accepts-stacked", name, un, passed))
+
         usages = []
         for q in spell[:2]:
             usages += [("catch-all-kwargs", lambda q=q: f_catchall(q, k=q), True), ("catch-all-kwargs-wrong", lambda q=q: f_catchall(q, k=wrong), False), ("catch-all-kwargs-wrong-first", lambda q=q: f_catchall(wrong, k=q), False),
